@@ -65,6 +65,20 @@ Theorem C12_query_order_irrelevant : forall seq ops sched t th,
 Proof. exact query_order_irrelevant. Qed.
 Print Assumptions C12_query_order_irrelevant.
 
+(* the slicing primitive means what Python means: L[:] = L, L[a:b] = firstn (b-a) (skipn a L),
+   L[:k] = firstn k L, L[::-1] = rev L, L[::0] raises, L[-(k+1)] and L[k] are nth_error of rev L / L *)
+Theorem C12_slice_meaning : forall l,
+  py_slice l None None None = Some l /\
+  (forall a b, 0 <= a <= b ->
+     py_slice l (Some a) (Some b) None = Some (firstn (Z.to_nat (b - a)) (skipn (Z.to_nat a) l))) /\
+  (forall k, py_slice l None (Some (Z.of_nat k)) None = Some (firstn k l)) /\
+  py_slice l None None (Some (-1)) = Some (rev l) /\
+  py_slice l None None (Some 0) = None /\
+  (forall k, py_index l (- Z.of_nat k - 1) = nth_error (rev l) k) /\
+  (forall k, py_index l (Z.of_nat k) = nth_error l k).
+Proof. exact slice_meaning. Qed.
+Print Assumptions C12_slice_meaning.
+
 (* the hypothesis `incr l` is satisfiable and decidable, and it is needed: *)
 Theorem C12_incr_nonvacuous : incr [1; 3; 7] /\ (forall l, incrb l = true -> incr l).
 Proof. exact (conj incr_ex incrb_sound). Qed.
